@@ -884,6 +884,12 @@ class _ExecutorManagerThread(threading.Thread):
             except ProcessLookupError:  # pragma: no cover
                 pass
 
+        # The workers are gone: nothing will read the call queue anymore. Close
+        # our own handle on its read end so that a feeder thread blocked while
+        # sending a large item gets EPIPE and exits, instead of being left
+        # behind with its pipe and its locks (see python/cpython#94777).
+        self.call_queue._reader.close()
+
     def shutdown_workers(self):
         # shutdown all workers in self.processes
 
